@@ -8,7 +8,7 @@
    decision are replaced by the oracle boolean [ovr] (consulted only where the C code evaluates the decision).
    [vr] selects the code variant: all-false = src/fs/iwfsmfile.c as it is; fx_lfbk / fx_strict / fx_sync / fx_short / fx_realloc /
    fx_hint / fx_leak follow the code after fixes/fsm-lfbk.diff / fsm-strict-dealloc.diff / fsm-syncbmap.diff / fsm-dealloc-short.diff /
-   fsm-realloc-guard.diff / fsm-alloc-overflow.diff / fsm-resize-leak.diff.
+   fsm-realloc-guard.diff / fsm-alloc-overflow.diff / fsm-resize-leak.diff / fsm-realloc-recheck.diff (fx_recheck).
    64-bit arguments: the public functions take off_t values; every `(uint64_t) x >> bpow` of the C code is [blk_of] (the
    cast is modelled, so negative and huge arguments are inside the model).  [maxoff]: the exfile's limit on the file size
    (0 = none); a growth beyond it fails with IWFS_ERROR_MAXOFF in _exfile_ensure_size_lw ([ensure_ok]).  No proofs here. *)
@@ -52,7 +52,7 @@ Fixpoint lookup_bounds (k : key) (t : list key) (lb : option key) : option key *
   end.
 
 (* code variant + the one open-time option that changes control flow (mmap_all) *)
-Record variant := mkVariant { fx_lfbk : bool; fx_strict : bool; fx_sync : bool; fx_short : bool; fx_realloc : bool; fx_hint : bool; fx_leak : bool;
+Record variant := mkVariant { fx_lfbk : bool; fx_strict : bool; fx_sync : bool; fx_short : bool; fx_realloc : bool; fx_hint : bool; fx_leak : bool; fx_recheck : bool;
                              mmap_all : bool }.
 
 Record fsm := mkFsm {
@@ -351,6 +351,8 @@ Definition reallocate (s : fsm) (nlen addr olen opts : Z) (ovr : bool) : aret :=
   let nlen_blk := shr (IW_ROUNDUP nlen (pow2 (bpow s))) (bpow s) in
   let olen_blk := blk_of s olen in
   let oaddr_blk := blk_of s addr in
+  (* after fixes/fsm-realloc-recheck.diff: a negative new length is refused (it used to wrap to "zero blocks": everything released) *)
+  if fx_recheck (vr s) && (nlen <? 0) then (FSM_IW_ERROR_INVALID_ARGS, s, addr, olen) else
   if nlen_blk =? olen_blk then (0, s, addr, olen) else
   (* after fixes/fsm-realloc-guard.diff: the old region is neither empty nor part of the header / the bitmap area *)
   if fx_realloc (vr s) && (olen_blk <? 1) then (FSM_IW_ERROR_INVALID_ARGS, s, addr, olen) else
@@ -359,11 +361,21 @@ Definition reallocate (s : fsm) (nlen addr olen opts : Z) (ovr : bool) : aret :=
     let '(rc, s1) := blk_deallocate s (oaddr_blk + nlen_blk) (olen_blk - nlen_blk) in
     if rc =? 0 then (0, s1, shl oaddr_blk (bpow s), shl nlen_blk (bpow s)) else (rc, s1, addr, olen)
   else
+    (* after fixes/fsm-realloc-recheck.diff: the old range is probed (range guard; strict: fully allocated) BEFORE the new region
+       is taken; after the allocation - which may have grown and moved the bitmap - the bitmap guard is evaluated again; when
+       the call fails from here on the new region is given back *)
+    let pre := if fx_recheck (vr s) then fst (set_bit_status s oaddr_blk olen_blk false true (strict s)) else 0 in
+    if negb (pre =? 0) then (pre, s, addr, olen) else
     let '(rc, s1, naddr_blk, sp) := blk_allocate s nlen_blk oaddr_blk opts ovr in
     if negb (rc =? 0) then (rc, s1, addr, olen) else
+    if fx_recheck (vr s) &&
+       negb (IW_RANGES_OVERLAP oaddr_blk (oaddr_blk + olen_blk) (shr (bmoff s1) (bpow s))
+               (shr (bmoff s1) (bpow s) + shr (bmlen s1) (bpow s)) =? 0)
+    then (IWFS_ERROR_FSM_SEGMENTATION, snd (blk_deallocate s1 naddr_blk sp), addr, olen) else
     (* pool.copy: the destination range is brought inside the file (_exfile_copy: _exfile_ensure_size_lw first) *)
     let csz := shl naddr_blk (bpow s) + uw 64 olen in
-    if negb (naddr_blk =? oaddr_blk) && negb (ensure_ok s1 csz) then (FSM_E_MAXOFF, s1, addr, olen) else
+    if negb (naddr_blk =? oaddr_blk) && negb (ensure_ok s1 csz)
+    then (FSM_E_MAXOFF, (if fx_recheck (vr s) then snd (blk_deallocate s1 naddr_blk sp) else s1), addr, olen) else
     let s1 := if negb (naddr_blk =? oaddr_blk) then ensure_size s1 csz else s1 in
     let '(rc2, s2) := blk_deallocate s1 oaddr_blk olen_blk in
     if negb (rc2 =? 0) then (rc2, s2, addr, olen) else
@@ -436,7 +448,7 @@ Definition reopen (s : fsm) (strict' mmap_all' : bool) : fsm :=
   load_fsm (mkFsm (disk_bm s) [] 0 0 (p_bmoff s) (p_bmlen s) (hdrlen s) (bpow s) (aunit s) (fsize s)
                   (p_crzsum s) (p_crznum s) (p_crzsum s) (p_crznum s) (p_bmoff s) (p_bmlen s) (maxoff s) strict'
                   (mkVariant (fx_lfbk (vr s)) (fx_strict (vr s)) (fx_sync (vr s)) (fx_short (vr s)) (fx_realloc (vr s))
-                             (fx_hint (vr s)) (fx_leak (vr s)) mmap_all')).
+                             (fx_hint (vr s)) (fx_leak (vr s)) (fx_recheck (vr s)) mmap_all')).
 
 (* iwfs_fsmfile_open of a new (truncated) file: _fsm_init_impl + _fsm_init_new_lw; omaxoff = opts->exfile.maxoff
    (iwfs_exfile_open keeps it, rounded down to the page size, when it is at least one page) *)
